@@ -23,6 +23,14 @@ def deref(ex, v):
     return ex.deref_value(v)
 
 
+def _vars_of(e):
+    from z3 import z3util
+    try:
+        return z3util.get_vars(e)
+    except Exception:
+        return []
+
+
 def mk_some(ty, v):
     return EnumV(ty or "Option", "Some", None, {"Some": Agg("variant", "Some", [v])})
 
@@ -309,7 +317,11 @@ def m_is_variant(ex, st, callee, args, dty, m):
 def m_unwrap(ex, st, callee, args, dty, m):
     v = as_enum(ex, args[0], m.group(1))
     good = "Ok" if m.group(1) == "Result" else "Some"
-    what = "%s on a %s value: %s" % (m.group(2), "None" if good == "Some" else "Err", callee[:50])
+    origin = ""
+    if isinstance(v.discr, I):
+        names = [str(x) for x in _vars_of(v.discr.bv)]
+        origin = " [value from: %s]" % (", ".join(names)[:80] or "constant")
+    what = "%s on a %s value: %s%s" % (m.group(2), "None" if good == "Some" else "Err", callee[:50], origin)
     if v.variant is not None:
         if v.variant == good:
             return payload(ex, v, good)
@@ -623,6 +635,14 @@ def m_map_insert(ex, st, callee, args, dty, m):
     mv.entries.append([z3.BoolVal(True), k, Cell(val)])
     if (dty or "").strip() == "bool":
         return z3.Not(was_there)
+    if re.match(r"^(?:std::option::|core::option::)?Option<", (dty or "").strip()):
+        # Option<V>: Some(previous value) iff the key was present
+        if z3.is_false(was_there):
+            return mk_none(dty)
+        prev = ex.fresh("prev_value", _payload_type(dty, "Some"))
+        if z3.is_true(was_there):
+            return mk_some(dty, prev)
+        return ("__fork__", [(was_there, mk_some(dty, prev)), (z3.Not(was_there), mk_none(dty))])
     return Opaque("insert-result!%d" % next(ex.fresh_counter), dty)
 
 
@@ -832,7 +852,7 @@ def iter_driver(ex, kind, items, closure, dty):
     b.locals = dict(b.args)
     b.locals["_0"] = dty or "()"
     res = "_%d" % (n + 2)
-    b.locals[res] = "bool" if kind in ("all", "any", "position") else "()"
+    b.locals[res] = "bool" if kind in ("all", "any", "position", "find") else "()"
     token = "__closure_call__%d" % _DRIVER_COUNT[0]
     ex.models = [(re.compile(re.escape(token) + "$"), lambda ex_, st, callee, args, dt, mm, cb=cbody: ("__inline__", cb, args))] + list(ex.models)
 
@@ -856,6 +876,11 @@ def iter_driver(ex, kind, items, closure, dty):
             pb = blk("bbP%d" % i)
             pb.stmts.append(("assign", ("local", "_0"), ("variant", "Option::Some", [("const", "%d_usize" % i)])))
             pb.term = ("return",)
+        elif kind == "find":
+            chk.term = ("switch", ("copy", ("local", res)), [("0", nxt), ("otherwise", "bbP%d" % i)])
+            pb = blk("bbP%d" % i)
+            pb.stmts.append(("assign", ("local", "_0"), ("variant", "Option::Some", [("copy", ("local", "_%d" % (i + 2)))])))
+            pb.term = ("return",)
     end = blk("bb%d" % (2 * n))
     if kind == "for_each":
         end.stmts.append(("assign", ("local", "_0"), ("use", ("const", "()"))))
@@ -863,7 +888,7 @@ def iter_driver(ex, kind, items, closure, dty):
         end.stmts.append(("assign", ("local", "_0"), ("use", ("const", "true"))))
     elif kind == "any":
         end.stmts.append(("assign", ("local", "_0"), ("use", ("const", "false"))))
-    elif kind == "position":
+    elif kind in ("position", "find"):
         end.stmts.append(("assign", ("local", "_0"), ("variant", "Option::None", [])))
     end.term = ("return",)
     if kind == "all":
@@ -882,12 +907,23 @@ def iter_driver(ex, kind, items, closure, dty):
     return ("__inline__", b, [env] + list(items))
 
 
-@model(r"<(?:std|core)::slice::Iter(?:Mut)?<'_, .*> as Iterator>::(for_each|all|any|position)::<.*>$")
+@model(r"<(?:std|core)::slice::Iter(?:Mut)?<'_, .*> as Iterator>::(for_each|all|any|position|find)::<.*>$|<(?:std::collections::)?vec_deque::Iter(?:Mut)?<'_, .*> as Iterator>::(for_each|all|any|position|find)::<.*>$")
 def m_iter_adaptor(ex, st, callee, args, dty, m):
     items = _seq_item_refs(ex, args[0])
     if items is None:
         return NotImplemented
-    return iter_driver(ex, m.group(1), items, args[1], dty)
+    kind = m.group(1) or m.group(2)
+    if kind == "find":
+        # the predicate receives `&Self::Item`; the result is the item itself
+        res = iter_driver(ex, "find", [Ref(Cell(it), ()) for it in items], args[1], dty)
+        if isinstance(res, tuple) and res[0] == "__inline__":
+            body = res[1]
+            for i, it in enumerate(items):
+                pb = body.blocks.get("bbP%d" % i)
+                if pb is not None:
+                    pb.stmts[0] = ("assign", ("local", "_0"), ("variant", "Option::Some", [("copy", ("deref", ("local", "_%d" % (i + 2))))]))
+        return res
+    return iter_driver(ex, kind, items, args[1], dty)
 
 
 # ---------------------------------------------------------------- more containers: VecDeque, HashMap iteration / entry API, Ord::cmp
